@@ -4,7 +4,8 @@ package c08
 // (boundary-directed amounts computed from the observed state with the implementation's own
 // checks on a discarded branch of the store), a malformed stream, and two scripted prefixes
 // (bad debt that pushes reserves above cash+borrows; two-step borrow of an 18-decimal asset
-// at the LTV boundary).
+// at the LTV boundary).  The parameter shapes, the over-limit / exact-synced / global-limit /
+// minimum-borrow scripts and the probes from over-limit positions are in wide.go.
 
 import (
 	. "kavaverif/lib"
@@ -59,12 +60,24 @@ func newGen(r *Rng) *gen {
 	g := &gen{r: r}
 	basePrices := []string{"618.13", "1.0", "0.85", "2000.0"}
 	cfs := []string{"100000000", "100000000", "1000000", "1000000000000000000"}
-	profile := r.Pick(41, 16, 13, 12, 5, 6, 7) // standard, wild, bad-debt, split-valuation, reserve-borrow, market re-add, keeper-share change
+	// the scripted prefix: none, none (kept for the old "wild" profile), bad-debt, split-valuation, reserve-borrow,
+	// market re-add, keeper-share change, over-limit, exact synced amounts, global limit, minimum borrow
+	profile := r.Pick(24, 8, 9, 8, 4, 5, 5, 19, 8, 5, 5)
+	// the parameter shape of the money markets is drawn independently of the script (a script then
+	// fixes only the parameters it depends on): plain, wild, diverse (wide.go)
+	shape := r.Pick(36, 16, 48)
+	if profile == 1 {
+		shape = 1
+	}
+	for d := 0; d < nMkt; d++ {
+		g.cfg.Prices = append(g.cfg.Prices, randPrice(r, basePrices[d]))
+	}
 	for d := 0; d < nMkt; d++ {
 		m := MarketCfg{CF: cfs[d], LTV: pick(r, "0.5", "0.6", "0.8", "0.75"), Max: "0.0",
 			Reserve: pick(r, "0.025", "0.05", "0.1"), Keeper: pick(r, "0.05", "0.05", "0.01", "0.0"),
 			Base: pick(r, "0.0", "0.05", "0.5"), Mult: pick(r, "0.1", "1.0", "2.0"), Kink: "0.8", Jump: pick(r, "0.5", "5.0")}
-		if profile == 1 {
+		switch shape {
+		case 1:
 			m.CF = pick(r, cfs[d], "1", "3", "1000000", "1000000000000000000", "7000")
 			m.LTV = pick(r, "0.0", "1.0", "0.333333333333333333", "0.5", "0.8", "0.999999999999999999")
 			m.Reserve = pick(r, "0.0", "1.0", "0.5", "0.05", "0.999")
@@ -79,14 +92,28 @@ func newGen(r *Rng) *gen {
 				lim := new(big.Int).Mul(bigOf(m.CF), big.NewInt(int64(1+r.Intn(100))))
 				m.Max = sdk.NewDecFromBigInt(lim).String()
 			}
+		case 2:
+			g.shapeDiverse(d, &m)
 		}
 		g.cfg.Markets = append(g.cfg.Markets, m)
-		g.cfg.Prices = append(g.cfg.Prices, randPrice(r, basePrices[d]))
+	}
+	// one market whose collateral carries no borrowing power, next to markets that do
+	if shape != 1 && r.Chance(2, 5) {
+		z := r.Intn(nMkt)
+		g.cfg.Markets[z].LTV = "0.0"
+		o := (z + 1 + r.Intn(nMkt-1)) % nMkt
+		if dec(g.cfg.Markets[o].LTV).IsZero() {
+			g.cfg.Markets[o].LTV = pick(r, "0.5", "0.8", "1.0")
+		}
 	}
 	g.cfg.MinBorrow = pick(r, "10.0", "10.0", "0.0", "1.0", "0.000000000000000001")
-	if profile == 1 {
+	switch shape {
+	case 1:
 		g.cfg.MinBorrow = pick(r, "0.0", "10.0", "0.000001", "100.0")
+	case 2:
+		g.cfg.MinBorrow = pick(r, "0.0", "0.0", "10.0", "0.000001", "100.0", "1000.0", "0.000000000000000001")
 	}
+	var avoid [][2]int
 	switch profile {
 	case 2:
 		g.scriptBadDebt()
@@ -98,6 +125,19 @@ func newGen(r *Rng) *gen {
 		g.scriptMarketReadd()
 	case 6:
 		g.scriptKeeperShareChange()
+	case 7:
+		avoid = g.scriptOverLimit()
+	case 8:
+		g.scriptExactSynced()
+	case 9:
+		g.scriptGlobalLimit()
+	case 10:
+		g.scriptMinBorrow()
+	}
+	// two money markets priced by one spot market (never the pair a price-move script separates;
+	// the older scripts value their two markets independently)
+	if profile != 2 && profile != 3 && profile != 6 && r.Chance(1, 3) {
+		g.shareSpot(avoid)
 	}
 	return g
 }
@@ -230,11 +270,41 @@ func denomsOf(v []*big.Int) []int {
 
 func (g *gen) anyUser() int { return []int{0, 0, 1, 1, 2, 2, 3}[g.r.Intn(7)] }
 
-func (g *gen) mktDenom() int { return g.r.Intn(nMkt) }
+// mktDenom: a money-market denom; when two markets share a spot market, often one of those two
+// (so that positions hold both)
+func (g *gen) mktDenom() int {
+	if len(g.cfg.Spot) > 0 && g.r.Chance(1, 3) {
+		for d := 0; d < nMkt; d++ {
+			if g.cfg.spot(d) != d {
+				return []int{d, g.cfg.spot(d)}[g.r.Intn(2)]
+			}
+		}
+	}
+	return g.r.Intn(nMkt)
+}
 
 // ------------------------------------------------------------ operations
 
+// next yields the next operation.  A price change of a spot market shared by several money
+// markets is one "price" operation per denom (the model keeps a price per denom), back to back.
 func (g *gen) next(w *world, s *snap, cnt *Counters) Op {
+	op := g.next0(w, s, cnt)
+	if op.Kind == "price" && op.X2 != "shared-follow" {
+		var follow []func(w *world, s *snap) (Op, bool)
+		for _, d2 := range w.cfg.sharers(op.D) {
+			if d2 != op.D {
+				d2, x := d2, op.X
+				follow = append(follow, func(w *world, s *snap) (Op, bool) { return Op{Kind: "price", D: d2, X: x, X2: "shared-follow"}, true })
+			}
+		}
+		if len(follow) > 0 {
+			g.script = append(follow, g.script...)
+		}
+	}
+	return op
+}
+
+func (g *gen) next0(w *world, s *snap, cnt *Counters) Op {
 	for len(g.script) > 0 {
 		f := g.script[0]
 		g.script = g.script[1:]
@@ -247,6 +317,15 @@ func (g *gen) next(w *world, s *snap, cnt *Counters) Op {
 	var op Op
 	if r.Chance(5, 100) {
 		return g.genParams(w, s, cnt)
+	}
+	// a position outside its range: try every kind of operation from it
+	if over := w.usersOver(); len(over) > 0 && r.Chance(40, 100) {
+		op = g.genProbe(w, s, over[r.Intn(len(over))])
+		if cnt != nil {
+			cnt.Inc("gen:" + op.Kind + ":" + g.tag)
+		}
+		op.X2 = g.tag
+		return op
 	}
 	k := r.Pick(20, 22, 14, 12, 7, 8, 11, 2, 4)
 	if (k == 3 || k == 4) && len(usersWith(s.bor)) == 0 && r.Chance(9, 10) {
@@ -333,7 +412,22 @@ func (g *gen) genBorrow(w *world, s *snap) Op {
 		d = g.mktDenom()
 	}
 	var a *big.Int
-	switch r.Pick(40, 35, 6, 6, 10, 3) {
+	k := r.Pick(40, 35, 6, 6, 10, 3)
+	if rm := w.globalRoom(s, d); rm != nil && r.Chance(1, 3) { // at the market's global borrow limit
+		off := int64(r.Intn(4) - 1)
+		a = new(big.Int).Add(rm, big.NewInt(off))
+		g.tag = fmt.Sprintf("global%+d", off)
+		k = -1
+	} else if s.bor[u] == nil && dec(w.cfg.MinBorrow).IsPositive() && r.Chance(1, 6) { // at the minimum borrow value
+		if mn := w.minBorrowAmt(u, d); mn != nil {
+			off := int64(r.Intn(3) - 1)
+			a = new(big.Int).Add(mn, big.NewInt(off))
+			g.tag = fmt.Sprintf("min%+d", off)
+			k = -1
+		}
+	}
+	switch k {
+	case -1:
 	case 0:
 		mx := w.maxBorrow(u, d)
 		off := int64(r.Intn(5) - 2)
@@ -374,7 +468,27 @@ func (g *gen) genWithdraw(w *world, s *snap) Op {
 		return Op{Kind: "withdraw", A: g.anyUser(), Coins: one(g.mktDenom(), big.NewInt(5))}
 	}
 	u := us[r.Intn(len(us))]
+	if r.Chance(1, 40) { // possibly somebody without a deposit
+		u = g.anyUser()
+		if s.dep[u] == nil {
+			g.tag = "no-deposit"
+			return Op{Kind: "withdraw", A: u, Coins: one(g.mktDenom(), big.NewInt(int64(1+r.Intn(1000))))}
+		}
+	}
 	ds := denomsOf(s.dep[u].amt)
+	if r.Chance(1, 25) { // a denom that is not in the deposit (alone or next to one that is)
+		for k := 0; k < 4; k++ {
+			if d := g.mktDenom(); s.dep[u].amt[d].Sign() == 0 {
+				cs := one(d, big.NewInt(int64(1+r.Intn(1000))))
+				if r.Chance(1, 2) {
+					d2 := ds[r.Intn(len(ds))]
+					cs = sortCoins(append(cs, one(d2, big.NewInt(1))...))
+				}
+				g.tag = "denom-not-deposited"
+				return Op{Kind: "withdraw", A: u, Coins: cs}
+			}
+		}
+	}
 	d := ds[r.Intn(len(ds))]
 	cur := s.dep[u].amt[d]
 	if s.sdep[u].kind == 2 {
@@ -394,8 +508,9 @@ func (g *gen) genWithdraw(w *world, s *snap) Op {
 		a = new(big.Int).Mul(cur, big.NewInt(int64(1+r.Intn(99))))
 		a.Quo(a, big.NewInt(100))
 	case 3:
-		a = jitter(r, cur, 2)
-		g.tag = "near-deposit"
+		off := int64(r.Intn(5) - 2)
+		a = new(big.Int).Add(cur, big.NewInt(off))
+		g.tag = fmt.Sprintf("synced%+d", off)
 	default:
 		a = big.NewInt(int64(1 + r.Intn(20)))
 	}
@@ -424,6 +539,19 @@ func (g *gen) genRepay(w *world, s *snap) Op {
 		sender = g.anyUser()
 	}
 	ds := denomsOf(s.bor[owner].amt)
+	if r.Chance(1, 25) { // a denom that was not borrowed (alone or next to one that was)
+		for k := 0; k < 4; k++ {
+			if d := g.mktDenom(); s.bor[owner].amt[d].Sign() == 0 {
+				cs := one(d, big.NewInt(int64(1+r.Intn(1000))))
+				if r.Chance(1, 2) {
+					d2 := ds[r.Intn(len(ds))]
+					cs = sortCoins(append(cs, one(d2, big.NewInt(1))...))
+				}
+				g.tag = "denom-not-borrowed"
+				return Op{Kind: "repay", A: sender, B: owner, Coins: cs}
+			}
+		}
+	}
 	d := ds[r.Intn(len(ds))]
 	cur := s.bor[owner].amt[d]
 	if s.sbor[owner].kind == 2 {
@@ -432,8 +560,9 @@ func (g *gen) genRepay(w *world, s *snap) Op {
 	var a *big.Int
 	switch r.Pick(30, 20, 35, 15) {
 	case 0:
-		a = jitter(r, cur, 1)
-		g.tag = "near-debt"
+		off := int64(r.Intn(3) - 1)
+		a = new(big.Int).Add(cur, big.NewInt(off))
+		g.tag = fmt.Sprintf("synced%+d", off)
 	case 1:
 		a = new(big.Int).Mul(cur, big.NewInt(1000))
 		g.tag = "all"
@@ -464,6 +593,9 @@ func (g *gen) genLiquidate(w *world, s *snap) Op {
 	b := g.anyUser()
 	if len(us) > 0 && r.Chance(9, 10) {
 		b = us[r.Intn(len(us))]
+	}
+	if over := w.usersOver(); len(over) > 0 && r.Chance(1, 2) {
+		b = over[r.Intn(len(over))]
 	}
 	k := g.anyUser()
 	if r.Chance(1, 10) {
